@@ -270,6 +270,8 @@ def run_pipe(rng, counters):
         sim = genome.simulate(rng, tmp, p)
         thr = rng.choice([0, 0, 2, 6, 13, 30, 50])
         opts = {"gt_qual_threshold": thr, "nopriors": rng.random() < 0.3, "constant": rng.choice([0.0, 0.0, 0.1, 1])}
+        if rng.random() < 0.2:
+            opts["affine_gap"] = True  # allele weights from affine-gap re-alignment costs
         if ped:
             opts["ped"] = sim.ped
         if p["n_chrom"] > 1 and rng.random() < 0.4:
